@@ -172,7 +172,10 @@ class TopLevelVisitor(ast.NodeVisitor):
         Returns:
             ast.Module:
         """
-        self.sourcelines = self.source.splitlines()
+        # Split where the compiler starts a new line (str.splitlines also
+        # splits at form feeds and unicode separators, which would shift
+        # every line number after one of them)
+        self.sourcelines = re.split('\r\n|\r|\n', self.source)
         source_utf8  = self.source.encode('utf8')
         pt = ast.parse(source_utf8)
         return pt
